@@ -13,10 +13,11 @@ inductive OOp where
   | should (t : Int)
   | cfgH (pct vol : Int)
   | cfgC (thr : Int)
+  | view (t : Int)          -- the JSON / expvar view is read while the injected clock shows t
   deriving Repr, DecidableEq
 
 def OOp.time : OOp → Option Int
-  | .ev _ t | .opened t | .closed t | .should t => some t
+  | .ev _ t | .opened t | .closed t | .should t | .view t => some t
   | _ => none
 
 /-- outcomes that count: successes, failures, timeouts -/
@@ -56,6 +57,11 @@ def monotone : List OOp → Bool
     match op.time with
     | none => monotone h
     | some t => decide (0 ≤ t) && (h.all fun o => match o.time with | some t' => decide (t' ≤ t) | none => true) && monotone h
+
+/-- the weaker guard that suffices: the query is asked at a time not before anything the history presented (the
+    history itself may be in ANY timestamp order: late-stamped completions, earlier queries ...) -/
+def latest (h : List OOp) (t : Int) : Bool :=
+  decide (0 ≤ t) && h.all fun o => match o.time with | some t' => decide (t' ≤ t) | none => true
 
 /-- consecutive-errors opener: trailing failures/timeouts since the last success or transition -/
 def trailingErrors : List (Kind × Int) → Int
